@@ -1204,3 +1204,76 @@ func lemma_C01_roundtrip_exact(ts uint32, sid uint32) bool {
 	}
 	return spec_roundtrip(ts, 9, sid, 4, 8) && spec_roundtrip(ts, 9, sid, 4, 1)
 }
+
+// ---------- C02: a conformant chunk stream written from RTMP 1.0 5.3.1, decoded by the real reader (bounded) ----------
+// The stream below is what a conformant sender may emit (chunk size 8): two chunk streams interleaved, a 3-byte and a
+// 1-byte basic header, all four message header types, timestamp deltas, and a type-3 chunk that starts a new message.
+// Payload bytes are arbitrary. Callees inlined, loops unrolled: bounded.
+//
+//   1. csid 5   fmt 0  ts 1000  len 12 type 9 stream 1   payload[0:8]          (first chunk of A)
+//   2. csid 320 fmt 0  ts 2000  len 3  type 8 stream 1   payload               (B, complete)      3-byte basic header
+//   3. csid 5   fmt 3                                     payload[8:12]         (A complete)
+//   4. csid 5   fmt 1  delta 40 len 2  type 9             payload               (A2: ts 1040)
+//   5. csid 5   fmt 2  delta 20                           payload (len 2)       (A3: ts 1060)
+//   6. csid 5   fmt 3                                     payload (len 2)       (A4: ts 1080, a new message without header)
+//   7. csid 70  fmt 0  ts 5     len 1  type 18 stream 7  payload               (C)                2-byte basic header
+
+func prim_feed(r io.Reader, b []byte) {} // engine primitive: the unread input of r is exactly b
+
+//@ unroll spec_put 0 16
+func spec_put(b []byte, at int, bs ...byte) int {
+	for i, x := range bs {
+		b[at+i] = x
+	}
+	return at + len(bs)
+}
+
+func spec_expect(v *Protocol, typ MessageType, sid uint32, ts uint64, n int, b []byte, at int) bool {
+	m, err := v.ReadMessage()
+	return err == nil && m != nil && m.MessageType == typ && m.streamID == sid && m.Timestamp == ts && prim_eqbytes(m.Payload, b[at:at+n])
+}
+
+//@ bounded lemma_C02_conformantStream 4
+//@ lemma C02.conformant-stream.bounded
+func lemma_C02_conformantStream() bool {
+	v := &Protocol{r: new(bufio.Reader), w: new(bufio.Writer)}
+	v.input.opt, v.output.opt = newSettings(), newSettings()
+	v.input.opt.chunkSize = 8
+	v.input.chunks = map[chunkID]*chunkStream{}
+	v.input.transactions = map[amf0.Number]amf0.String{}
+	b := make([]byte, 80)
+	prim_havoc(b)
+	p := spec_put(b, 0, 0x05, 0x00, 0x03, 0xe8, 0x00, 0x00, 0x0c, 9, 1, 0, 0, 0) // 1: fmt 0 csid 5
+	a0 := p
+	p += 8
+	p = spec_put(b, p, 0x01, 0x00, 0x01, 0x00, 0x07, 0xd0, 0x00, 0x00, 0x03, 8, 1, 0, 0, 0) // 2: fmt 0 csid 320 = 64 + 0 + 1*256
+	b0 := p
+	p += 3
+	p = spec_put(b, p, 0xc5) // 3: fmt 3 csid 5
+	a1 := p
+	p += 4
+	p = spec_put(b, p, 0x45, 0x00, 0x00, 0x28, 0x00, 0x00, 0x02, 9) // 4: fmt 1 csid 5, delta 40, len 2
+	a2 := p
+	p += 2
+	p = spec_put(b, p, 0x85, 0x00, 0x00, 0x14) // 5: fmt 2 csid 5, delta 20
+	a3 := p
+	p += 2
+	p = spec_put(b, p, 0xc5) // 6: fmt 3 csid 5, new message
+	a4 := p
+	p += 2
+	p = spec_put(b, p, 0x00, 0x06, 0x00, 0x00, 0x05, 0x00, 0x00, 0x01, 18, 7, 0, 0, 0) // 7: fmt 0 csid 70 = 64 + 6
+	c0 := p
+	p++
+	prim_feed(v.r, b[:p])
+	if !spec_expect(v, 8, 1, 2000, 3, b, b0) {
+		return false
+	}
+	// A: 12 bytes in two chunks
+	m, err := v.ReadMessage()
+	if err != nil || m == nil || m.MessageType != 9 || m.streamID != 1 || m.Timestamp != 1000 || len(m.Payload) != 12 ||
+		!prim_eqbytes(m.Payload[:8], b[a0:a0+8]) || !prim_eqbytes(m.Payload[8:], b[a1:a1+4]) {
+		return false
+	}
+	return spec_expect(v, 9, 1, 1040, 2, b, a2) && spec_expect(v, 9, 1, 1060, 2, b, a3) && spec_expect(v, 9, 1, 1080, 2, b, a4) &&
+		spec_expect(v, 18, 7, 5, 1, b, c0) && ghost_rd_pos(v.r) == ghost_rd_len(v.r)
+}
